@@ -29,6 +29,9 @@ import (
 //   tamper <side> <frame> <off> <xor>     xor one byte of a sealed frame waiting in side's inbox
 //   close <side>                          side.Close()
 //   trunc <side> <k>                      cut the last k bytes of side's inbox, then close
+//   replay <side> <k> <j>                 (c32r.go) replace the k-th sealed frame waiting in side's inbox by the
+//                                         j-th sealed frame ever sent to that side (whole-frame replay)
+//   inc2 <nonce hex>                      (c32r.go) incr2Nonce on a 24-byte nonce → the new nonce
 // impl line of w: n=<n> err=<e> frames=<sealed frames written> nonce=<send nonce after>
 // impl line of r: n=<n> err=<e> buf=<buffer with the trailing 0xAA run cut> buffered=<len(recvBuffer)> nonce=<recv nonce after>
 //
@@ -94,6 +97,12 @@ type c32side struct {
 	prv  chainkd.XPrv
 	sent []byte // everything this side wrote successfully
 	pos  int    // how much of the PEER's sent stream this side's Read has consumed
+	// frame level (c32r.go): every sealed frame ever delivered to this side's inbox, how many
+	// of them Read has taken, and the absolute index of a frame replaced by an earlier one
+	hist     [][]byte
+	taken    int
+	replayAt int // -1: none
+	replayJ  int
 }
 
 type c32state struct {
@@ -118,8 +127,8 @@ func c32handshake(c *Ctx) (*c32side, *c32side, error, error) {
 	p1, p2 := newC32pipe(), newC32pipe()
 	ca := &c32conn{in: p2, out: p1}
 	cb := &c32conn{in: p1, out: p2}
-	a := &c32side{conn: ca, prv: c32key(c)}
-	b := &c32side{conn: cb, prv: c32key(c)}
+	a := &c32side{conn: ca, prv: c32key(c), replayAt: -1}
+	b := &c32side{conn: cb, prv: c32key(c), replayAt: -1}
 	var ea, eb error
 	var wg sync.WaitGroup
 	wg.Add(2)
@@ -205,6 +214,9 @@ func (st *c32state) exec(c *Ctx, line string) (string, string, []c32fail) {
 		return line, "bad-op", nil
 	}
 	c.Count("op/" + w[0])
+	if w[0] == "inc2" {
+		return c32inc2(line, w)
+	}
 	if st.dead && w[0] != "reset" {
 		return line, "abandoned", nil
 	}
@@ -258,6 +270,9 @@ func (st *c32state) exec(c *Ctx, line string) (string, string, []c32fail) {
 		}
 		me.conn.out.mu.Lock()
 		after := len(me.conn.out.buf)
+		if _, peer := st.side(w[1]); after >= before {
+			c32record(peer, me.conn.out.buf[before:after])
+		}
 		me.conn.out.mu.Unlock()
 		_, sn := me.sc.VerifNonces()
 		if werr == nil {
@@ -299,6 +314,9 @@ func (st *c32state) exec(c *Ctx, line string) (string, string, []c32fail) {
 		avail1 := len(me.conn.in.buf)
 		me.conn.in.mu.Unlock()
 		rn, _ := me.sc.VerifNonces()
+		if f := c32replayCheck(st, me, w[1], avail, avail1, n, rerr, buf); f != nil {
+			fails = append(fails, *f)
+		}
 		dirty := buf
 		for len(dirty) > 0 && dirty[len(dirty)-1] == 0xAA {
 			dirty = dirty[:len(dirty)-1]
@@ -358,6 +376,8 @@ func (st *c32state) exec(c *Ctx, line string) (string, string, []c32fail) {
 			c.Count("read/ok-with-corruption-pending")
 		}
 		return line, res, fails
+	case "replay":
+		return c32replay(st, line, w)
 	case "tamper":
 		me, _ := st.side(w[1])
 		f, _ := strconv.Atoi(w[2])
@@ -650,6 +670,15 @@ func runC32(c *Ctx) {
 			}
 		}
 		c.Distinct(strings.Join(key, "|"))
+	}
+	c32nonceGrid(c, emitFails)
+	long := c.N / 40
+	if long < 6 {
+		long = 6
+	}
+	for i := 0; i < long; i++ {
+		st.tag = fmt.Sprintf("long#%d", i)
+		c32longCase(c, st, emitFails)
 	}
 	rounds := 30
 	if c.Tier == "thorough" {
